@@ -20,7 +20,7 @@ func init() {
 		Rule: "each case draws a list of <=6 nodes (3 hash algorithms x 2 values x present/absent, in a third of the cases also present with an empty value, nil and empty hash maps, FILE nodes, repeated purls and names, identifiers of all four kinds) and a probe node; " +
 			"GetMatchingNode is run on 4 permutations of the list x 3 repetitions and compared with the documented rule (outcome = returned node id / nil / ambiguity error; the returned pointer must be an element of the list); " +
 			"GetNodeByID, GetNodesByName, GetNodesByIdentifier (every documented spelling of the type), GetRootNodes (list and document), GetNodesByPurlType are compared with linear filters. " +
-			"distinct = hash of (list, probe); non-trivial = probe shares a hash value or a purl with at least one node.",
+			"afterwards the list is changed in place four times (a hash added or removed, a node replaced, purl and name changed) and matching and the lookups are re-checked against the list as it then is; distinct = hash of (list, probe); non-trivial = probe shares a hash value or a purl with at least one node.",
 		Assumptions: []string{"an algorithm whose value is the empty string is a present algorithm (it conflicts with a non-empty value); where the outcome depends on whether two empty values agree, the case is executed but not judged", "unique node ids", "identifier-type spellings outside the documented table are executed but not judged"},
 		NCases: func(tier string) int {
 			if tier == "thorough" {
@@ -331,6 +331,96 @@ func c16Case(c *core.C) {
 		}
 		if got == nil || !gen.IDSet(got).Equal(want) || len(got.Nodes) != len(want) {
 			c.Violatef("lookup-GetNodesByPurlType", det, "GetNodesByPurlType(%q) returned %s, want nodes %s", pt, gen.Canon(got), want)
+			return
+		}
+	}
+	// the list changes in place between calls (same *NodeList value, same number of nodes): every answer must
+	// describe the list as it is at the time of the call, not as an earlier call saw it
+	if len(nl.Nodes) == 0 || c16EmptyValues {
+		return
+	}
+	var trace []string
+	for step := 0; step < 4; step++ {
+		i := r.Intn(len(nl.Nodes))
+		switch r.Intn(4) {
+		case 0:
+			a := c16Algos[r.Intn(len(c16Algos))]
+			nl.Nodes[i].AddHash(sbom.HashAlgorithm(a), fmt.Sprintf("v%d", r.Intn(2)))
+			trace = append(trace, fmt.Sprintf("AddHash on node %d", i))
+		case 1:
+			nl.Nodes[i] = c16Node(r, nl.Nodes[i].Id)
+			trace = append(trace, fmt.Sprintf("node %d replaced by another node with the same id", i))
+		case 2:
+			if nl.Nodes[i].Identifiers == nil {
+				nl.Nodes[i].Identifiers = map[int32]string{}
+			}
+			nl.Nodes[i].Identifiers[1] = gen.Pick(r, c16Purls)
+			nl.Nodes[i].Name = gen.Pick(r, c16Names)
+			trace = append(trace, fmt.Sprintf("purl and name of node %d changed", i))
+		default:
+			nl.Nodes[i].Hashes = nil
+			trace = append(trace, fmt.Sprintf("hashes of node %d removed", i))
+		}
+		c.Cover("lookups-after-in-place-change-of-the-list")
+		hdet := map[string]any{"initial_list": det["list"], "probe": det["probe"], "changes": append([]string{}, trace...), "list_now": nl.String()}
+		wantID, wantKind := matchModel(nl, probe)
+		var got *sbom.Node
+		var err error
+		if guard(c, "GetMatchingNode", hdet, func() { got, err = nl.GetMatchingNode(probe) }) {
+			return
+		}
+		c.Evals(1)
+		kind, id := "nil", ""
+		switch {
+		case err != nil && errors.Is(err, sbom.ErrorMoreThanOneMatch):
+			kind = "ambiguous"
+		case err != nil:
+			kind = "other-error"
+		case got != nil:
+			kind, id = "ok", got.Id
+		}
+		if kind != wantKind || id != wantID {
+			c.Violatef("match-stale-after-change", hdet, "after %v GetMatchingNode = (%s,%s), the documented rule on the list as it is now gives (%s,%s); list=%s probe=%s", trace, id, kind, wantID, wantKind, nl.String(), probe.String())
+			return
+		}
+		if got != nil {
+			in := false
+			for _, x := range nl.Nodes {
+				if x == got {
+					in = true
+				}
+			}
+			if !in {
+				c.Violatef("match-outside-list", hdet, "after %v GetMatchingNode returned a node that is no longer an element of the list", trace)
+				return
+			}
+		}
+		for _, name := range c16Names {
+			var want []*sbom.Node
+			for _, x := range nl.Nodes {
+				if x.Name == name {
+					want = append(want, x)
+				}
+			}
+			if got := nl.GetNodesByName(name); ptrSet(got) != ptrSet(want) {
+				c.Violatef("lookup-stale-after-change:GetNodesByName", hdet, "after %v GetNodesByName(%q) returned %d nodes, want %d", trace, name, len(got), len(want))
+				return
+			}
+		}
+		for _, v := range c16Purls {
+			var want []*sbom.Node
+			for _, x := range nl.Nodes {
+				if w, ok := x.Identifiers[1]; ok && w == v {
+					want = append(want, x)
+				}
+			}
+			if got := nl.GetNodesByIdentifier("purl", v); ptrSet(got) != ptrSet(want) {
+				c.Violatef("lookup-stale-after-change:GetNodesByIdentifier", hdet, "after %v GetNodesByIdentifier(purl,%q) returned %d nodes, want %d", trace, v, len(got), len(want))
+				return
+			}
+		}
+		if got := nl.GetNodeByID(nl.Nodes[i].Id); got == nil || got.Id != nl.Nodes[i].Id {
+			c.Violatef("lookup-stale-after-change:GetNodeByID", hdet, "after %v GetNodeByID(%q) returned %v", trace, nl.Nodes[i].Id, got)
 			return
 		}
 	}
